@@ -1403,6 +1403,8 @@ _CHAINS = {
             ('R08.14', 'profile_ctor', lambda c: _layer_profile_ctor(c, 'R08.14')),
             ('R08.15', 'index_precond', lambda c: _layer_index_precond(c, 'R08.15')),
             ('R08.16', 'defaults', lambda c: _layer_defaults(c, 'R08.16'))],
+    'C09': [('R09.12', 'avrg', lambda c: _class_averages(c, 'R09.12', ('PieceWiseConstFunc', 'PieceWiseLinFunc')))],
+    'C11': [('R11.10', 'avrg', lambda c: _class_averages(c, 'R11.10', ('DiscreteFunc',)))],
     'C10': [('R10.7', 'ownership', lambda c: r09_2_ownership(c, 'R10.7', {'PieceWiseConstFunc', 'PieceWiseLinFunc'}))],
     'C12': [('R12.8', 'avrg', lambda c: _class_averages(c, 'R12.8')),
             ('R12.9', 'plumbing', lambda c: _plumbing(c, (_ISI, _SPK, _SYN, _DIR), 'R12.9')),
